@@ -225,8 +225,9 @@ def rule_R3(ctx):
     okf = False
     for blk, t in Q.calls(f, ["::to_vec", "Vec::<T>::from", "::to_owned"]):
         for c in Q.canon_conds(P, T.dom_conds(f, SF, blk)):
-            if c[0] == "cmp" and c[1] in ("Gt", "Le") and _field_in(c[3], "max_frame_size") and any(x[0] == "call" and x[1].endswith("from_be_bytes") for x in T.walk(c[2])):
-                okf = (c[1] == "Gt") != c[4]
+            o = Q.oriented(c, lambda z: _field_in(z, "max_frame_size"))
+            if o and any(x[0] == "call" and x[1].endswith("from_be_bytes") for x in T.walk(o[2])):
+                okf = o[0] == "Ge"
     ctx.check(okf, "R3", "http2:frame-cap", "frame length <= config.max_frame_size before the payload is copied", "HTTP/2 frame size cap no longer dominates the payload copy", ctx.loc(f))
     dflt = [b2 for b2 in P.bodies.values() if b2.kind == "AssocFn" and b2.name == "default" and (b2.impl_self or "").endswith("Http2Config")]
     if dflt:
@@ -239,10 +240,10 @@ def rule_R3(ctx):
     for (rb, j, term, _c) in TB.return_sites(h, P):
         if term[0] == "agg" and term[3] == "Err":
             for c in Q.canon_conds(P, T.dom_conds(h, SH, rb)):
-                if c[0] == "cmp" and c[1] == "Gt" and c[4]:
-                    for k in caps:
-                        if _field_in(c[3], k) and T.has_call(c[2], "::len"):
-                            caps[k] = True
+                for k in caps:
+                    o = Q.oriented(c, lambda z, k=k: _field_in(z, k))
+                    if o and o[0] == "Lt" and T.has_call(o[2], "::len"):
+                        caps[k] = True
     for k, v in caps.items():
         ctx.check(v, "R3", "http1:" + k, "Err when count/length exceeds config.%s" % k, "HTTP/1 cap %s no longer enforced" % k, ctx.loc(h))
     # the header-count cap precedes the per-header loop (allocation of the header vector)
@@ -252,7 +253,8 @@ def rule_R3(ctx):
     for (rb, j, term, _c) in TB.return_sites(rl, P):
         if term[0] == "agg" and term[3] == "Err":
             for c in Q.canon_conds(P, T.dom_conds(rl, SR, rb)):
-                if c[0] == "cmp" and c[1] == "Gt" and c[4] and _field_in(c[3], "max_request_line_length"):
+                o = Q.oriented(c, lambda z: _field_in(z, "max_request_line_length"))
+                if o and o[0] == "Lt":
                     okrl = True
     ctx.check(okrl, "R3", "http1:max_request_line_length", "Err when the request line exceeds the cap", "request line length cap no longer enforced", ctx.loc(rl))
 
